@@ -6,6 +6,7 @@ import (
 	"go/parser"
 	"go/token"
 	"go/types"
+	"sort"
 	"strconv"
 	"strings"
 )
@@ -1437,4 +1438,143 @@ func c16r15(p *Program, r *Report) {
 	}
 	r.Check(guarded && okAssign, store, "(*cowHostList).remove leaves the list alone when the address is not in it", "the store is reached only with the search's sentinel changed from its initial value, which happens only on a match",
 		"removing an address that is not in the list is not recognised as 'not found' ("+ifs(!okAssign, whyAssign, why)+"): an unrelated host (the first of the list) is dropped from the selection policy, e.g. when a DOWN event is followed by the removal of the same node")
+}
+
+// c10r11: the placement walk meets a node once per token it owns; the seen-set test keeps it from being considered
+// twice only if every host that is put on a list (the replica list or a per-datacenter waiting list) is also entered
+// into the set before the walk moves on. Checked per iteration of the walk: at every way back to the loop head (and
+// out of the function) no host has been stored without having been marked.
+func c10r11(p *Program, r *Report) {
+	n := 0
+	for _, name := range []string{"(*networkTopology).replicaMap", "(*simpleStrategy).replicaMap"} {
+		impl := p.Func(name)
+		if impl == nil || impl.Decl.Body == nil {
+			continue
+		}
+		for _, fi := range p.unitsOf(impl) {
+			g := p.GraphOf(fi)
+			info := g.Info
+			isSeenSet := func(e ast.Expr) bool {
+				if t := info.TypeOf(e); t != nil {
+					if m, ok := t.Underlying().(*types.Map); ok && strings.Contains(m.Key().String(), "HostInfo") {
+						switch el := m.Elem().Underlying().(type) {
+						case *types.Struct:
+							return el.NumFields() == 0
+						case *types.Basic:
+							return el.Kind() == types.Bool
+						}
+					}
+				}
+				return false
+			}
+			// the hosts that are subject to a seen-set test in this function
+			tested := map[string]bool{}
+			ast.Inspect(fi.Decl.Body, func(x ast.Node) bool {
+				if ix, ok := x.(*ast.IndexExpr); ok && isSeenSet(ix.X) {
+					if as, isAs := p.Parent(ix).(*ast.AssignStmt); isAs {
+						for _, l := range as.Lhs {
+							if l == ast.Expr(ix) {
+								return true // a mark, not a test
+							}
+						}
+					}
+					tested[exprStr(ix.Index)] = true
+				}
+				return true
+			})
+			if len(tested) == 0 {
+				continue
+			}
+			isHostList := func(e ast.Expr) bool {
+				t := info.TypeOf(e)
+				return t != nil && strings.Contains(t.String(), "[]*") && strings.Contains(t.String(), "HostInfo")
+			}
+			// state: hosts marked since they were bound (must), hosts stored in a list without being marked (may)
+			type wst struct{ marked, pending strset }
+			sol := Solve(g, Lattice[wst]{
+				Init: wst{strset{}, strset{}},
+				Join: func(a, b wst) wst { return wst{a.marked.intersect(b.marked), a.pending.union(b.pending)} },
+				Eq:   func(a, b wst) bool { return a.marked.eq(b.marked) && a.pending.eq(b.pending) },
+				Step: func(s wst, st Step) wst {
+					if st.Kind != StNode {
+						return s
+					}
+					as, ok := st.Node.(*ast.AssignStmt)
+					if !ok {
+						return s
+					}
+					for i, l := range as.Lhs {
+						// a mark
+						if ix, isIx := ast.Unparen(l).(*ast.IndexExpr); isIx && isSeenSet(ix.X) {
+							k := exprStr(ix.Index)
+							s = wst{s.marked.with(k), s.pending.without(k)}
+							continue
+						}
+						// a store: L = append(L, h)
+						if i < len(as.Rhs) && isHostList(l) {
+							if c, isC := ast.Unparen(as.Rhs[i]).(*ast.CallExpr); isC && calleeName(info, c) == "builtin.append" && !c.Ellipsis.IsValid() {
+								for _, a := range c.Args[1:] {
+									if k := exprStr(a); tested[k] && !s.marked[k] {
+										s = wst{s.marked, s.pending.with(k)}
+									}
+								}
+							}
+						}
+						// the host variable is bound to another node: nothing is known about that one yet
+						if ls := exprStr(l); tested[ls] {
+							s = wst{s.marked.without(ls), s.pending}
+						}
+					}
+					return s
+				},
+			})
+			// ways back to the head of the walking loop (the loop that contains the seen-set test) and out
+			var loops []*ast.ForStmt
+			ast.Inspect(fi.Decl.Body, func(x ast.Node) bool {
+				if fs, ok := x.(*ast.ForStmt); ok {
+					has := false
+					inspectNoLit(fs.Body, func(y ast.Node) bool {
+						if ix, isIx := y.(*ast.IndexExpr); isIx && isSeenSet(ix.X) {
+							has = true
+						}
+						return true
+					})
+					// innermost such loop only
+					if has {
+						inner := false
+						ast.Inspect(fs.Body, func(y ast.Node) bool {
+							if f2, isF := y.(*ast.ForStmt); isF && f2 != fs {
+								inspectNoLit(f2.Body, func(z ast.Node) bool {
+									if ix, isIx := z.(*ast.IndexExpr); isIx && isSeenSet(ix.X) {
+										inner = true
+									}
+									return true
+								})
+							}
+							return true
+						})
+						if !inner {
+							loops = append(loops, fs)
+						}
+					}
+				}
+				return true
+			})
+			for _, lp := range loops {
+				for _, be := range BackEdges(p, sol, lp, lp.Body.Pos()) {
+					n++
+					var pend []string
+					for k := range be.State.pending {
+						pend = append(pend, k)
+					}
+					sort.Strings(pend)
+					r.Check(len(pend) == 0, be.Node, fi.Name+" marks every host it puts on a list before the walk moves on", "seen-set entry made on every path of the iteration that stores the host",
+						"the walk can move on to the next ring entry with "+strings.Join(pend, ", ")+" stored in a list but not entered into the seen set: a node that owns several tokens is met again, passes the test again and is queued or placed a second time (a replica list with the same node twice, a real replica displaced)")
+				}
+			}
+		}
+	}
+	if n == 0 {
+		r.Unresolved("no placement walk with a seen-set test found")
+	}
 }
